@@ -82,6 +82,9 @@ type Scenario struct {
 	// SpareCap: the byte decoder's input is a short view of a larger buffer: the rest of the
 	// valid encoding sits in its spare capacity (len = Cut, cap = the complete length).
 	SpareCap bool `json:"spare_cap,omitempty"`
+	// Again: the receiver has read another stream to its END before (its last DecodeBebop
+	// there failed: nothing was left), and only then reads this history.
+	Again bool `json:"again,omitempty"`
 	// EncOps: a history of EncodeBebop calls by one or two callers onto two destinations
 	EncOps   []EncOp           `json:"enc_ops,omitempty"`
 	Input    []byte            `json:"input,omitempty"` // explicit bytes (corruption scenarios)
